@@ -285,3 +285,18 @@ Proof.
   - intros j u H. split; [eapply UD; exact H|].
     pose proof (f2_ok s RS j u H) as SK. unfold expd in SK. rewrite M, K in SK. exact SK.
 Qed.
+
+(* ---------- the stress engine's prediction: one modelled round, any schedule ---------- *)
+Theorem stress_round_prediction l : stress_valid l = true ->
+  all_enabled (fst (final_state (stress_ops l))) = [] -> stress_round l = [[7; 1; 0; 0]%Z].
+Proof.
+  intros V AE. unfold stress_round. rewrite V.
+  pose proof (final_state_reachable (stress_ops l)) as R.
+  set (s := fst (final_state (stress_ops l))) in *.
+  pose proof (all_enabled_nil_terminal s AE) as T.
+  destruct (terminal_all_done _ s R T) as (C & RD & UD & FR & PD & _).
+  assert (ST : stuck_list s = []).
+  { unfold stuck_list. rewrite C. unfold rdone in RD. destruct (rpcf s); try discriminate. cbn [app].
+    apply stuck_users_done. exact UD. }
+  rewrite ST, FR, PD, Z.sub_diag. reflexivity.
+Qed.
